@@ -213,6 +213,68 @@ func forgedMultiOffenders(rng *rand.Rand) []*Target {
 	} else if tier == "thorough" {
 		stride = 2
 	}
+	// ---- str-blank: the character strings inside RARE extensions (an extension carried by fewer than 15 corpus certificates: the
+	// organisation identifier, QC statements, a notice text ...) - every certificate that has one, whatever the stride
+	extFreq := map[string]int{}
+	for _, o := range c.Certs {
+		for _, x := range o.Cert.Extensions {
+			extFreq[x.Id.String()]++
+		}
+	}
+	for _, rc := range pl.Others {
+		if rc.R != "str-blank" || skip["str-blank"] {
+			continue
+		}
+		isStr := func(nd *forge.Node) bool {
+			return nd.Children == nil && !nd.Constructed() && (nd.Tag() == 0x0c || nd.Tag() == 0x13 || nd.Tag() == 0x16 || nd.Tag() == 0x1a) && len(nd.Content) > 0
+		}
+		// the string nodes of the rare extensions of a certificate, in walk order
+		rareStrings := func(fc *forge.Cert) []*forge.Node {
+			var nodes []*forge.Node
+			exts := fc.Exts()
+			if exts == nil {
+				return nil
+			}
+			for _, x := range exts.Children {
+				if f := extFreq[forge.ExtOID(x)]; f == 0 || f >= 15 {
+					continue
+				}
+				forge.Expand(x)
+				x.Walk(func(nd *forge.Node) {
+					if isStr(nd) {
+						nodes = append(nodes, nd)
+					}
+				})
+			}
+			return nodes
+		}
+		for _, o := range c.Certs {
+			base, err := forge.ParseCert(o.DER)
+			if err != nil {
+				continue
+			}
+			count := len(rareStrings(base.Clone()))
+			if count == 0 {
+				continue
+			}
+			// n = 1: one certificate per string (the first six), that string alone made blank; n = 2: every string given a trailing blank
+			variants := 1
+			if rc.N == 1 {
+				variants = min(count, 6)
+			}
+			for v := 0; v < variants; v++ {
+				cc := base.Clone()
+				for k, nd := range rareStrings(cc) {
+					if rc.N == 1 && k == v {
+						nd.Content = []byte(" ")
+					} else if rc.N != 1 {
+						nd.Content = append(append([]byte{}, nd.Content...), ' ')
+					}
+				}
+				add(fmt.Sprintf("forged:str-blank%d.%d:%s", rc.N, v, o.ID), cc.Bytes())
+			}
+		}
+	}
 	for ci, o := range c.Certs {
 		onion := false
 		for _, n := range o.Cert.DNSNames {
@@ -343,6 +405,8 @@ func forgedMultiOffenders(rng *rand.Rand) []*Target {
 						add(fmt.Sprintf("forged:elem-vary%d:%s:ext%s:front%d", rc.N, o.ID, xo, front), cc.Bytes())
 					}
 				}
+			case "str-blank":
+				// (made below for every certificate, not only for those of this stride: it looks at rare extensions only)
 			case "dup-ext":
 				exts := base.Exts()
 				if exts == nil || len(exts.Children) < rc.N {
